@@ -14,7 +14,7 @@ EXPLANATION = (
     "prefixes). R06.3 TapBranch::Prove appends the sibling's hash (child==left => right's, child==right => left's) and only then "
     "recurses to the parent (bottom-up, the order the verifier folds). R06.4 non-interference: the data-dependence closure of the "
     "printed address contains none of the spend-selection variables. Tree shape for every n, secp256k1 tweak arithmetic, bech32m and "
-    "the reported sighash value are NOT decided.")
+    "the reported sighash value are NOT decided. R06.4 (round 6): the closure contains control dependences too - the locals read by the conditions a write is nested in - over the writes from which the address computation is still reachable.")
 TRUSTED = ["clang 14 parser/Sema", "/verif extractor", "/verif term evaluator G-SYM (checker/symx.py): inlining, loop summaries relative to prev, linear normal form; casts between integer types are treated as value-preserving", "C05's facts about the verifier"]
 ASSUMPTIONS = ["data dependence through libsecp calls is modelled as: every pointer argument may be written from every other argument"]
 DECLINED = ["tree shape for every n (pairing loops)", "secp256k1_xonly_pubkey_tweak_add, bech32m encoding", "that the reported sighash is the digest of the emitted transaction (see C02/C03)"]
